@@ -14,7 +14,7 @@ RULE = (
     "(dim, category[, unit=]), (dim, quantity[, values]), CreateWithQuantity with and without dimension=, "
     "CreateEmptyArray, a subclass with class-level _dimension) with dimension 0..6 and list/tuple/ndarray containers "
     "of every length 0..7, then chains of CreateCopy(values / unit / values+unit / category, also on arrays without category), arithmetic with FixedArray / Array / "
-    "numbers (equal and different lengths), copy/deepcopy/pickle, ChangingIndex (float / Scalar / (value, unit) tuple, "
+    "numbers (equal and different lengths), 2-d numpy operands that broadcast to another number of rows, copy/deepcopy/pickle, ChangingIndex (indexes from the front and from the end; float / Scalar / (value, unit) tuple, "
     "use_value_unit both) and IndexAsScalar. Oracle: an attempt consistent with len(values)==dimension>=2 succeeds, "
     "any other raises ValueError; every FixedArray that ever exists has len(values)==dimension>=2 (dimension as "
     "requested / as the source's); a rejected attempt leaves the source's deep snapshot unchanged; ChangingIndex: "
@@ -72,14 +72,15 @@ class FAMachine:
             self.pool.append(o)
 
     def attempt(self, origin, fn, consistent, want_dim=None, sources=()):
-        """Run fn: if `consistent` it must succeed and give a FixedArray satisfying the invariant,
-        otherwise it must raise ValueError; sources' snapshots must not change in either case."""
+        """Run fn: if `consistent` it must succeed and give a FixedArray satisfying the invariant, if it is False it
+        must raise ValueError, if it is None either outcome is allowed (but whatever is returned satisfies the
+        invariant); sources' snapshots must not change in any case."""
         snaps = [(s, snapshot.value_object(s)) for s in sources]
         self.ctx.ev()
         try:
             r = fn()
         except ValueError as e:
-            if consistent:
+            if consistent is True:
                 where = core.tree_frame(e)
                 self.fail("consistent_attempt_rejected:%s" % origin, "%s raised ValueError: %s although dimension and length agree" % (origin, e))
             self.flags.add("rejected")
@@ -91,7 +92,7 @@ class FAMachine:
             self.fail("wrong_exception:%s:%s" % (origin, type(e).__name__), "%s raised %s: %s (%s)" % (origin, type(e).__name__, str(e)[:200], "it should have succeeded" if consistent else "ValueError expected"))
             r = None
         else:
-            if not consistent:
+            if consistent is False:
                 self.fail("inconsistent_attempt_accepted:%s" % origin, "%s returned %r (len(values)=%s, dimension=%s) instead of raising ValueError" % (origin, r, _len(r), getattr(r, "dimension", None)))
             self.inv(r, want_dim, origin)
         for s, sn in snaps:
@@ -234,6 +235,17 @@ class FAMachine:
             r = self.attempt("FixedArray%snumber" % sym, (lambda: _ar(sym, k, a)) if left else (lambda: _ar(sym, a, k)), True, d, [a])
             if r is not None:
                 self.add(r)
+        elif kind == "arith_ndarray2d":
+            # a numpy operand with an extra axis broadcasts: the result has as many rows as numpy says; whatever comes
+            # back is a FixedArray whose dimension is its number of values, or the operation raises ValueError
+            _, _, rows, cols_full, sym, left = op
+            k = numpy.arange(1.0, 1.0 + rows * (d if cols_full else 1)).reshape((rows, d if cols_full else 1))
+            if left and sym == "/" and any(x == 0 for x in a.GetValues()):
+                return
+            self.ctx.cls("ndarray2d_rows_%s_dimension" % ("eq" if rows == d else "ne"))
+            r = self.attempt("FixedArray%sndarray2d" % sym, (lambda: _ar(sym, k, a)) if left else (lambda: _ar(sym, a, k)), None, None, [a])
+            if r is not None and len(self.pool) < 10 and all(not hasattr(x, "__len__") for x in r.GetValues()):
+                self.add(r)
         elif kind == "pickle":
             r = self.attempt("pickle", lambda: pickle.loads(pickle.dumps(a, op[2] % (pickle.HIGHEST_PROTOCOL + 1))), True, d, [a])
             if r is not None and not (r == a):
@@ -250,13 +262,17 @@ class FAMachine:
             us = db.GetUnits(qt)
             vu = us[ui % len(us)]
             i = idx % d
+            # every other call addresses the element from the end (-d..-1), as the value sequence allows
+            ci = i - d if (idx // d) % 2 else i
+            if ci < 0:
+                self.ctx.cls("negative_index")
             if vk == "float":
                 val, amount_unit = x, a.GetUnit()
             elif vk == "tuple":
                 val, amount_unit = (x, vu), vu
             else:
                 val, amount_unit = Scalar(x, vu), vu
-            r = self.attempt("ChangingIndex(%s)" % vk, lambda: a.ChangingIndex(i, val, use), True, d, [a])
+            r = self.attempt("ChangingIndex(%s)" % vk, lambda: a.ChangingIndex(ci, val, use), True, d, [a])
             if r is None:
                 return
             ru = r.GetUnit()
@@ -279,7 +295,7 @@ class FAMachine:
                     want = db.Convert(qt, a.GetUnit(), ru, float(av[j]))
                     S = self.um.conv_scale(a.GetUnit(), ru, float(av[j]))
                 if not core.close(float(rv[j]), want, S, 1e-12):
-                    self.fail("changing_index_amount_wrong:%s" % ("target" if j == i else "other"), "ChangingIndex(%d, %r, use_value_unit=%r) on %r returned %r: element %d is %r %s, expected %r" % (i, val, use, a, r, j, rv[j], ru, want))
+                    self.fail("changing_index_amount_wrong:%s" % ("target" if j == i else "other"), "ChangingIndex(%d, %r, use_value_unit=%r) on %r returned %r: element %d is %r %s, expected %r" % (ci, val, use, a, r, j, rv[j], ru, want))
             self.flags.add("changing_index")
             self.add(r)
         elif kind == "index_as_scalar":
@@ -290,13 +306,14 @@ class FAMachine:
             us = db.GetUnits(qt)
             vu = us[ui % len(us)]
             i = idx % d
+            ci = i - d if (idx // d) % 2 else i
             snap = snapshot.value_object(a)
             self.ctx.ev()
-            s = a.IndexAsScalar(i, ObtainQuantity(vu, a.GetCategory())) if withq else a.IndexAsScalar(i)
+            s = a.IndexAsScalar(ci, ObtainQuantity(vu, a.GetCategory())) if withq else a.IndexAsScalar(ci)
             tu = vu if withq else a.GetUnit()
             want = db.Convert(qt, a.GetUnit(), tu, float(list(a.GetValues())[i]))
             if not isinstance(s, Scalar) or s.GetUnit() != tu or not core.close(s.GetValue(), want, self.um.conv_scale(a.GetUnit(), tu, float(list(a.GetValues())[i])), 1e-12):
-                self.fail("index_as_scalar_wrong", "IndexAsScalar(%d) of %r in %r gave %r, expected %r %s" % (i, a, tu, s, want, tu))
+                self.fail("index_as_scalar_wrong", "IndexAsScalar(%d) of %r in %r gave %r, expected %r %s" % (ci, a, tu, s, want, tu))
             if snapshot.value_object(a) != snap:
                 self.fail("source_changed:IndexAsScalar", "IndexAsScalar changed %r" % a)
         else:
@@ -485,6 +502,7 @@ def fa_ops():
         st.tuples(st.just("arith_fixed"), i, i, sym),
         st.tuples(st.just("arith_array"), i, kinds, vals, sym),
         st.tuples(st.just("arith_number"), i, st.one_of(st.integers(-5, 5), gen.moderate_values()), sym, st.booleans()),
+        st.tuples(st.just("arith_ndarray2d"), i, st.integers(1, 4), st.booleans(), sym, st.booleans()),
         st.tuples(st.just("pickle"), i, st.integers(0, 5)),
         st.tuples(st.just("copy"), i, st.booleans()),
         st.tuples(st.just("changing_index"), i, i, st.sampled_from(["float", "tuple", "scalar"]), gen.moderate_values(1e-2, 1e3), i, st.booleans()),
